@@ -149,5 +149,7 @@ theorem GoodM.serialize_eq {K : Nat} {st : St} (hr : RM K st) :
       simp only [RView.serialize, render, forRows_eq h.2.2.2, this]
   | scope sid d kid _ => intro t h _; cases t <;> simp only [GoodM] at h
   | forRows en sel lists row _ => intro t h _; cases t <;> simp only [GoodM] at h
+  | eb kid _ => intro t h _; cases t <;> simp only [GoodM] at h
+  | res c x => intro t h _; cases t <;> simp only [GoodM] at h
 
 end Leptos.RView
